@@ -611,3 +611,31 @@ package types
 //@     invariant 0 <= iter && iter <= len(updatesCopy)
 //@     invariant tvpAfterRemovals <= 1152921504606846975 && wfVals(vals)
 //@     invariant forall k int :: 0 <= k && k < len(updatesCopy) ==> updatesCopy[k] != nil
+
+// ---------------------------------------------------------------- C13/C18: parts and part-set headers on the wire
+//@ func PartSetHeaderFromProto(ppsh *kproto.PartSetHeader) (r *PartSetHeader, err error)
+//@   for C13 C18
+//@   ensures ppsh == nil ==> err != nil
+//@   ensures [fieldsCopied] err == nil ==> r != nil && fresh(r) && r.Total == ppsh.Total && (len(ppsh.Hash) == 32 ==> content(r.Hash) == content(ppsh.Hash))
+//@ func PartFromProto(pb *kproto.Part) (r *Part, err error)
+//@   for C13 C18
+//@   ensures pb == nil ==> err != nil
+//@   ensures [fieldsCopied] err == nil ==> r != nil && fresh(r) && r.Index == pb.Index && r.Bytes == pb.Bytes && r.Proof.Total == pb.Proof.Total && r.Proof.Index == pb.Proof.Index && r.Proof.LeafHash == pb.Proof.LeafHash && r.Proof.Aunts == pb.Proof.Aunts
+//@ func (part *Part) ToProto() (r *kproto.Part, err error)
+//@   for C13 C18
+//@   ensures part == nil ==> err != nil
+//@   ensures [fieldsCopied] part != nil ==> err == nil && fresh(r) && r.Index == part.Index && r.Bytes == part.Bytes && r.Proof.Total == part.Proof.Total && r.Proof.Index == part.Proof.Index && r.Proof.LeafHash == part.Proof.LeafHash && r.Proof.Aunts == part.Proof.Aunts
+//@ func (psh *PartSetHeader) ToProto() (r kproto.PartSetHeader)
+//@   for C13 C18
+//@   ensures [fieldsCopied] psh != nil ==> r.Total == psh.Total && len(r.Hash) == 32 && content(r.Hash) == content(psh.Hash)
+//@ func (p *Proposal) ToProto() (r *kproto.Proposal)
+//@   for C13 C18
+//@   ensures r != nil
+//@   ensures [fieldsCopied] p != nil ==> fresh(r) && r.Height == p.Height && r.Round == p.Round && r.PolRound == p.POLRound && r.Timestamp == p.Timestamp && r.Signature == p.Signature && content(r.BlockID.Hash) == content(p.POLBlockID.Hash) && r.BlockID.PartSetHeader.Total == p.POLBlockID.PartsHeader.Total && content(r.BlockID.PartSetHeader.Hash) == content(p.POLBlockID.PartsHeader.Hash)
+//@ func ProposalFromProto(pp *kproto.Proposal) (r *Proposal, err error)
+//@   for C13 C18
+//@   ensures pp == nil ==> err != nil
+//@   ensures [fieldsCopied] err == nil ==> r != nil && fresh(r) && r.Height == pp.Height && r.Round == pp.Round && r.POLRound == pp.PolRound && r.Timestamp == pp.Timestamp && r.Signature == pp.Signature
+//@ func (blockID *BlockID) ToProto() (r kproto.BlockID)
+//@   for C13 C18
+//@   ensures [fieldsCopied] blockID != nil ==> len(r.Hash) == 32 && content(r.Hash) == content(blockID.Hash) && r.PartSetHeader.Total == blockID.PartsHeader.Total && len(r.PartSetHeader.Hash) == 32 && content(r.PartSetHeader.Hash) == content(blockID.PartsHeader.Hash)
